@@ -7,6 +7,7 @@ import (
 	"runtime/debug"
 	"strings"
 	"testing"
+	"unicode/utf8"
 
 	ct "github.com/google/certificate-transparency-go"
 	"github.com/google/certificate-transparency-go/trillian/ctfe"
@@ -119,6 +120,9 @@ func (c *ValCase) multiProto() *configpb.LogMultiConfig {
 	return m
 }
 
+// binaryIsUTF8 reports (for evidence) whether the last binary file written is also valid UTF-8 text.
+var binaryIsUTF8 bool
+
 func writeForms(t *testing.T, m proto.Message, multiline bool) (textPath, binPath string) {
 	txt, err := prototext.MarshalOptions{Multiline: multiline}.Marshal(m)
 	if err != nil {
@@ -128,6 +132,7 @@ func writeForms(t *testing.T, m proto.Message, multiline bool) (textPath, binPat
 	if err != nil {
 		t.Fatalf("harness: proto.Marshal: %v", err)
 	}
+	binaryIsUTF8 = utf8.Valid(bin) && len(bin) > 0
 	dir := ctfex.TempDir()
 	textPath, binPath = filepath.Join(dir, "c15-config.textproto"), filepath.Join(dir, "c15-config.binpb")
 	if err := os.WriteFile(textPath, txt, 0o644); err != nil {
@@ -193,6 +198,9 @@ func (r *valRun) judge(t *testing.T, c *ValCase, edits []Edit, first bool) {
 		}
 		for i := range c.Logs {
 			v.Class("log:" + kindOfLog(&c.Logs[i]))
+			if p := c.Logs[i].Priv; p != nil && p.Form == "pem-file" {
+				v.Class("privkey:pem-file")
+			}
 		}
 	}
 
@@ -226,6 +234,9 @@ func (r *valRun) judge(t *testing.T, c *ValCase, edits []Edit, first bool) {
 		forms := []struct{ form, path string }{}
 		if first {
 			tp, bp := writeForms(t, set, c.Multiline)
+			if binaryIsUTF8 {
+				v.Class(fmt.Sprintf("file:binary-is-valid-utf8/expect%+d", want))
+			}
 			forms = append(forms, struct{ form, path string }{"text", tp}, struct{ form, path string }{"binary", bp})
 		}
 		for _, f := range forms {
@@ -312,6 +323,9 @@ func (r *valRun) judge(t *testing.T, c *ValCase, edits []Edit, first bool) {
 	forms := []struct{ form, path string }{}
 	if first {
 		tp, bp := writeForms(t, mc, c.Multiline)
+		if binaryIsUTF8 {
+			v.Class(fmt.Sprintf("file:binary-is-valid-utf8/expect%+d", whole))
+		}
 		forms = append(forms, struct{ form, path string }{"text", tp}, struct{ form, path string }{"binary", bp})
 	}
 	for _, f := range forms {
